@@ -425,17 +425,19 @@ def run(ctx):
               "record traces from the real code which TLC validates against the specs.  distinct = distinct "
               "action/argument sequences; non-trivial = more than one step")
   ctx.assumptions = [
-      "PortView exhaustive transition cover: 3 port numbers x 2 names x 2 addresses (quick; + link-state flag on "
-      "2-3 ports and 4 port numbers in thorough), features replies from a fixed list incl. empty / duplicate names "
-      "and addresses / gaps; <=2 notifications inside the handshake; 4 ports x 3 names x 3 addresses x link flag "
-      "and histories of 12-30 notifications only by TLC simulation and random traces",
+      "PortView exhaustive transition cover: 3 port numbers x 2 names x 2 addresses and 2 port numbers x 2 names x "
+      "2 addresses x link flag (quick; + 3 ports with link flag and 4 port numbers x 2 names in thorough), features "
+      "replies from a fixed list incl. empty / duplicate names and addresses / gaps; 1 notification inside the "
+      "handshake; 4 ports x 3 names x 3 addresses x link flag, histories of 12-34 notifications and up to 3 "
+      "notifications inside the handshake only by TLC simulation and random traces",
       "add/modify of any number installs the carried description, delete of an unknown number is a no-op",
       "lookups by a name/address shared by several ports may answer with any of them (set-valued expectation)",
       "the view is not observed while the handshake is still running (nobody can reach the connection then)",
       "StatsAgg exhaustive transition cover: one reply in <=6 parts of 0..2 entries; a <=6-part reply interleaved "
       "with a single-part desc/aggregate reply of another request; three requests (same type/other xid, other "
-      "type/same xid) with <=3 parts of 0..1 entries, each key reusable after completion; more requests, more "
-      "parts and 0..5 entries per part only by simulation and random traces",
+      "type/same xid) with <=2 parts (thorough <=3/2/2) of 0..1 entries, each key reusable after completion; flow "
+      "and port types in quick, all four multipart types in thorough; more requests, more parts, 0..5 entries per "
+      "part and all unrelated message kinds only by simulation and random traces",
       "a request is identified by (xid, stats type); requests outstanding at the same time differ in one of them",
       "connected state only (stats replies during the handshake are not modelled); MORE flag on desc/aggregate "
       "and vendor/unknown stats types are not modelled",
